@@ -212,7 +212,7 @@ class Generic(Family):
 
 
 def families(tier):
-    fams = _families(tier)
+    fams = A.with_int_mode(_families(tier), tier)
     if tier == 'quick':
         fams.append(Generic(['tetrahedron', 'box', 'triangle', 'square'], range(4), range(4)))
     else:
